@@ -169,6 +169,8 @@ def gen_cases(rng, tier, scale):
            ('{{#each (lookup o "k")}}{{dump zz}}{{/each}}', 'dump(x7a7a:m:-:n;;bti;-)dump(x7a7a:m:-:n;;bti;-)'),
            ('{{#each o.k as |e i|}}{{dump i.nokey}}{{/each}}', 'dump(x692e6e6f6b6579:m:-:n;;bti;-)dump(x692e6e6f6b6579:m:-:n;;bti;-)'),
            ('{{#each [{"a":1}] as |e|}}{{dump e.zz ../zz}}{{/each}}', None)]
+    DER += [('{{*sethelper "lh"}}{{lh}}|{{{lh}}}|{{&lh}}|{{lh 1}}', 'local(lh:)|local(lh:)|local(lh:)|local(lh:-:v:-:u1)'),
+            ('{{#if t}}{{*sethelper "b"}}{{/if}}{{b}}', None)]
     OK_ = 'dump(%s:v:[x6f,x6b]:%s;;bti;-)' % (x('o.k'), jtok([1, 2]))
     OK2 = 'dump(%s:v:[x6f,x6b]:%s;;bti;-)' % (x('../o.k'), jtok([1, 2]))
     OK3 = 'dump(%s:v:[x6f,x6b]:%s;;bti;-)' % (x('@root.o.k'), jtok([1, 2]))
